@@ -81,6 +81,10 @@ def gen_req(r, i):
 
 
 def gen(r, tier):
+    if r.chance(0.04):
+        # the server context is a forward proxy (the handler is the library's own): see C10's proxy family
+        from . import c10
+        return dict(c10.gen_proxy(r), reqs=[])
     n = r.randint(2, 12)
     reqs = []
     t = 0.0
@@ -109,6 +113,10 @@ def gen(r, tier):
 
 def systematic(tier):
     out = []
+    for org in ("piggy", "sep_con"):
+        for d in (0.0, 0.15, 0.5):
+            out.append({"proxy": {"reqs": [{"t": 0.0, "con": True, "d": d, "origin": org}, {"t": 1.5, "con": False, "d": d, "origin": org}]},
+                        "ops": [], "reqs": []})
     i = 0
     for kind in KINDS:
         variants = [None]
@@ -165,6 +173,8 @@ def systematic(tier):
 
 
 def shrink(scn):
+    if scn.get("proxy"):
+        return
     reqs = scn["reqs"]
     if len(reqs) > 1:
         for i in range(len(reqs)):
@@ -201,6 +211,16 @@ class Client(ScriptedEndpoint):
 
 
 def execute(sim, scn):
+    if scn.get("proxy"):
+        # one final response a client can use: a response relayed as an ACK under a message ID the client never used is
+        # none (a client following RFC 7252 ignores it, and nobody retransmits it)
+        from . import c10
+        c10.execute_proxy(sim, scn)
+        for v in sim.violations:
+            if v["kind"].startswith("C10/"):
+                v["detail"] = dict(v["detail"], seen_as=v["kind"])
+                v["kind"] = "C09/no-usable-final-response"
+        return
     import asyncio
     import aiocoap
     import aiocoap.resource as resource
